@@ -33,26 +33,23 @@ fn driver() -> Arc<Driver> {
     })
 }
 
-/// Fleet: vehicles given as (id, closed, group).
-pub fn fleet(spec: &[(&str, bool, usize)]) -> Fleet {
+/// Fleet: vehicles given as (id, closed, group, number of identical details).
+pub fn fleet(spec: &[(&str, bool, usize, usize)]) -> Fleet {
     let vehicles = spec
         .iter()
-        .map(|(id, closed, _)| {
-            let mut detail = VehicleDetailBuilder::default().set_start_location(0);
-            if *closed {
-                detail = detail.set_end_location(0);
+        .map(|(id, closed, _, details)| {
+            let mut builder = VehicleBuilder::default().id(id).capacity(SingleDimLoad::new(10));
+            for _ in 0..*details {
+                let mut detail = VehicleDetailBuilder::default().set_start_location(0);
+                if *closed {
+                    detail = detail.set_end_location(0);
+                }
+                builder = builder.add_detail(detail.build().unwrap());
             }
-            Arc::new(
-                VehicleBuilder::default()
-                    .id(id)
-                    .add_detail(detail.build().unwrap())
-                    .capacity(SingleDimLoad::new(10))
-                    .build()
-                    .unwrap(),
-            )
+            Arc::new(builder.build().unwrap())
         })
         .collect::<Vec<_>>();
-    let groups: Vec<(String, usize)> = spec.iter().map(|(id, _, g)| (id.to_string(), *g)).collect();
+    let groups: Vec<(String, usize)> = spec.iter().map(|(id, _, g, _)| (id.to_string(), *g)).collect();
     Fleet::new(vec![driver()], vehicles, move |_| {
         let groups = groups.clone();
         move |actor: &Actor| {
@@ -76,7 +73,7 @@ fn fixture(closed: bool) -> Fixture {
         ("m2", multi.jobs[1].clone(), 2),
     ];
     let jobs = vec![Job::Single(s1), Job::Single(s2), Job::Multi(multi)];
-    Fixture { fleet: fleet(&[("v1", closed, 0)]), jobs, acts }
+    Fixture { fleet: fleet(&[("v1", closed, 0, 1)]), jobs, acts }
 }
 
 // ------------------------------------------------------------------------------------------
@@ -445,12 +442,15 @@ impl RegOp {
     }
 }
 
-const FLEETS: &[&[(&str, bool, usize)]] = &[
-    &[("a", true, 0)],
-    &[("a", true, 0), ("b", false, 0)],
-    &[("a", true, 0), ("b", false, 1)],
-    &[("a", true, 0), ("b", true, 0), ("c", false, 1)],
-    &[("a", true, 0), ("b", true, 0), ("c", false, 0)],
+const FLEETS: &[&[(&str, bool, usize, usize)]] = &[
+    &[("a", true, 0, 1)],
+    &[("a", true, 0, 1), ("b", false, 0, 1)],
+    &[("a", true, 0, 1), ("b", false, 1, 1)],
+    &[("a", true, 0, 1), ("b", true, 0, 1), ("c", false, 1, 1)],
+    &[("a", true, 0, 1), ("b", true, 0, 1), ("c", false, 0, 1)],
+    // one vehicle with two identical shifts: two actors which are structurally equal
+    &[("a", true, 0, 2)],
+    &[("a", true, 0, 2), ("b", false, 1, 1)],
 ];
 
 fn trivial_goal() -> GoalContext {
@@ -580,7 +580,7 @@ fn run_registry_bfs(depth: usize, fleet_idx: usize, report: &mut Report) {
     let groups: Vec<usize> = fleet
         .actors
         .iter()
-        .map(|a| spec.iter().find(|(id, _, _)| Some(&id.to_string()) == a.vehicle.dimens.get_vehicle_id()).unwrap().2)
+        .map(|a| spec.iter().find(|(id, _, _, _)| Some(&id.to_string()) == a.vehicle.dimens.get_vehicle_id()).unwrap().2)
         .collect();
     let goal = trivial_goal();
     let n = fleet.actors.len();
@@ -637,6 +637,37 @@ fn run_registry_bfs(depth: usize, fleet_idx: usize, report: &mut Report) {
                                 let exp = inside && !in_use.contains(&a);
                                 if got != exp {
                                     errs.push(format!("deep_slice(mask={mask:b}).get_route({a}) is_some={got}, expected {exp}"));
+                                }
+                            }
+                            // every single release / acquire on a fresh slice: actors outside of the slice are never accepted nor offered
+                            for a in 0..n {
+                                let inside = mask >> a & 1 == 1;
+                                for release in [true, false] {
+                                    let mut sl = ctx.deep_slice(keep);
+                                    let rc = RouteContext::new(fleet.actors[a].clone());
+                                    let (got, exp) = if release {
+                                        (sl.free_route(rc), inside && in_use.contains(&a))
+                                    } else {
+                                        (sl.use_route(&rc), inside && !in_use.contains(&a))
+                                    };
+                                    if got != exp {
+                                        errs.push(format!(
+                                            "deep_slice(mask={mask:b}).{}({a}) returned {got}, expected {exp}",
+                                            if release { "free_route" } else { "use_route" }
+                                        ));
+                                    }
+                                    let mut avail: Vec<usize> = sl.resources().available().map(|x| actor_idx(&fleet, &x)).collect();
+                                    avail.sort();
+                                    let expected: Vec<usize> = (0..n)
+                                        .filter(|x| mask >> x & 1 == 1)
+                                        .filter(|x| if *x == a && inside { release } else { !in_use.contains(x) })
+                                        .collect();
+                                    if avail != expected {
+                                        errs.push(format!(
+                                            "deep_slice(mask={mask:b}) after {}({a}): available {avail:?}, expected {expected:?}",
+                                            if release { "free_route" } else { "use_route" }
+                                        ));
+                                    }
                                 }
                             }
                             errs.extend(check_reg(&ctx, &in_use, &fleet, &groups).into_iter().map(|e| format!("original after slice ops: {e}")));
@@ -873,7 +904,7 @@ pub fn replay(_ctx: &RunCtx, scenario: &Value) -> Result<Vec<Violation>, String>
             let groups: Vec<usize> = fl
                 .actors
                 .iter()
-                .map(|a| spec.iter().find(|(id, _, _)| Some(&id.to_string()) == a.vehicle.dimens.get_vehicle_id()).unwrap().2)
+                .map(|a| spec.iter().find(|(id, _, _, _)| Some(&id.to_string()) == a.vehicle.dimens.get_vehicle_id()).unwrap().2)
                 .collect();
             let goal = trivial_goal();
             let random: Arc<dyn Random> = Arc::new(crate::env::ScriptedRandom::new(vec![], crate::env::Fallback::Default));
